@@ -68,6 +68,8 @@ class Twin(Checker):
 
 def explore(lr: LatticeRun, n: int, modes) -> None:
     Ks = None if n <= 4 else list(A.layered_knowledge(n, 2 if n == 5 else 1))
+    if "pairs" in modes and Ks is not None:
+        Ks += list(A.distance2_knowledge(n))
     lr.fresh(Ks=Ks)
     if "euler" in modes:
         lr.euler(compare_canonical=False)
@@ -247,6 +249,11 @@ def run(run: Run) -> None:
         if quick and i % 3 != seed % 3:
             continue
         us.append((5, f"pairgraph#{i}", A.shifted(g, (1, -1, 2, 0, 3)), (), 0.0))
+    for n in ((6,) if quick else (6, 7, 8)):
+        for tag, gv in A.larger_n_samples(n):
+            if quick and not tag.startswith(("matching-shift", "star-shift", "two-cliques+")):
+                continue
+            us.append((n, f"n{n}:{tag}", gv, ("pairs",) if n == 6 else (), 0.0))
     # non-superadditive inputs are inside "every incomplete game on which both are defined": all of A3-ANY
     for i, g in enumerate(A.a3_any()):
         if quick and i % 3 != seed % 3:
